@@ -47,6 +47,12 @@ def render_func(name, params, ret, doc, ind, stub, decorator=None):
 def render_members(members, ind="", stub=False):
     lines = []
     for m in members:
+        if m.get("guard"):
+            # defined under `if TYPE_CHECKING:` - not available at runtime
+            inner = render_members([{**m, "guard": False}], ind + "    ", stub)
+            lines.append(f"{ind}if TYPE_CHECKING:")
+            lines += inner
+            continue
         k = m["k"]
         if k == "func":
             lines += render_func(m["name"], m["params"], m["ret"], m["doc"], ind, stub, decorator=m.get("deco"))
@@ -91,6 +97,8 @@ def render_module(doc, members, stub=False, header=()):
     lines += list(header)
     if any(m["k"] == "overloads" for m in _walk(members)):
         lines.append("from typing import overload")
+    if any(m.get("guard") for m in _walk(members)):
+        lines.append("from typing import TYPE_CHECKING")
     lines.append("")
     lines += render_members(members, "", stub)
     return "\n".join(lines) + "\n"
